@@ -350,7 +350,18 @@ class ModelWriter:
                 if self.root.exists() and self.root.is_dir():
                     raise IOError("'%s' is an existing directory" % self.root.name)
                 else:
-                    shutil.move(self.temp_root, self.root)
+                    # The temporary directory can be on another file system.
+                    # Then shutil.move copies: copy next to the destination
+                    # and rename, so that a failing copy never leaves
+                    # a truncated archive at the destination.
+                    part = self.root.with_name(self.root.name + ".part")
+                    try:
+                        shutil.move(self.temp_root, part)
+                        part.replace(self.root)
+                    except BaseException:
+                        if part.exists():
+                            part.unlink()
+                        raise
 
         finally:
             self.system.serializing = None
